@@ -186,6 +186,23 @@ def hand_cases():
                     "    call CO(\n        vs = [" + ", ".join("PR.o%d" % i for i in (4, 1, 6, 0, 3, 5, 2)) + "],\n        m  = {" +
                     ", ".join("\"k%d\": PR.o%d" % (i, i) for i in (2, 5, 3, 0, 6, 1, 4)) + "},\n    ) using (\n        disabled = PR.off,\n    )\n\n"
                     "    return (\n        y   = CO.y,\n        all = [" + ", ".join("PR.o%d" % i for i in (6, 2, 5, 0, 4, 1, 3)) + "],\n    )\n}\n\ncall TOP(\n    x = 1,\n)\n"))
+    # a call disabled per element by the values of a map literal (true and false mixed) that a
+    # mapped pipeline is split over: the resolved graph keeps the split in the condition
+    out.append(prog("disable_split_map_literal",
+                    "stage W(\n    in  int x,\n    out int y,\n    src py \"w\",\n)\n\npipeline INNER(\n    in  int  x,\n    in  bool skip,\n    out int  y,\n)\n{\n"
+                    "    call W(\n        x = self.x,\n    ) using (\n        disabled = self.skip,\n    )\n\n    return (\n        y = W.y,\n    )\n}\n\n"
+                    "pipeline TOP(\n    out map<int> ys,\n)\n{\n    map call INNER(\n        x    = split {" +
+                    ", ".join("\"k%d\": %d" % (i, i) for i in range(8)) + "},\n        skip = split {" +
+                    ", ".join("\"k%d\": %s" % (i, "true" if i in (0, 3, 4, 7) else "false") for i in (5, 2, 7, 0, 3, 6, 1, 4)) +
+                    "},\n    )\n\n    return (\n        ys = INNER.y,\n    )\n}\n\ncall TOP(\n)\n"))
+    # several files included under the same name from different directories, each ending in a
+    # comment that belongs to nothing
+    inc_files = {"top.mro": "@include \"a/sub.mro\"\n@include \"b/sub.mro\"\n@include \"c/sub.mro\"\n@include \"d/sub.mro\"\n\ncall SA(\n    x = 1,\n)\n"}
+    for dname in "abcd":
+        inc_files["%s/sub.mro" % dname] = "@include \"defs.mro\"\n\nstage S%s(\n    in  int x,\n    in  t%s f,\n    src py \"s%s\",\n)\n" % (dname.upper(), dname, dname)
+        inc_files["%s/defs.mro" % dname] = "# types of %s\nfiletype t%s;\n\n# trailing remark of %s/defs.mro\n" % (dname, dname, dname)
+    inc_files["top.mro"] = inc_files["top.mro"].replace("call SA(\n    x = 1,\n)", "call SA(\n    x = 1,\n    f = null,\n)")
+    out.append({"id": "same_named_includes", "top": "top.mro", "files": inc_files})
     # strings the parser interns (stage code, output file names, resource `special`), first with a
     # literal backslash spelled \\\\ then - in the next source, for a parser that has kept the first -
     # with the escape that the first one's text spells
